@@ -224,6 +224,10 @@ def attr_value(ch, values, extra_text=True):
         return ''
     if r == 6 and extra_text:
         return ch.text(6, exclude='\x00\r')
+    if r == 7:
+        return ch.pick(('x\n', '\n', 'a b\n\n')) + base          # a line break *before* the part a selector matches
+    if r == 8:
+        return base + '\n' + ch.pick(values)
     return base
 
 
